@@ -44,6 +44,14 @@ func TestVerifConfHookRunFiles(t *testing.T) {
 	report := func(c, detail string) {
 		fmt.Printf("CONF-FAIL case=%s fn=hook.(*Hook).Run detail=%s\n", c, detail)
 	}
+	// the operator's own environment already defines the contract variables (operator started from
+	// a hook of an outer operator, or variables set in the pod spec): the execution's files must win
+	foreign := t.TempDir()
+	for _, v := range []string{"BINDING_CONTEXT_PATH", "METRICS_PATH", "CONVERSION_RESPONSE_PATH", "VALIDATING_RESPONSE_PATH", "ADMISSION_RESPONSE_PATH", "KUBERNETES_PATCH_PATH"} {
+		f := filepath.Join(foreign, v)
+		os.WriteFile(f, []byte(`[{"binding":"foreign"}]`), 0o644)
+		t.Setenv(v, f)
+	}
 	leftovers := func(dir string) []string {
 		es, _ := os.ReadDir(dir)
 		var out []string
@@ -133,7 +141,7 @@ func TestVerifConfHookRunFiles(t *testing.T) {
 			report("run-temp-files-left-after-failed-preparation", fmt.Sprintf("hook name of %d characters: preparing the admission response file failed (%v) and the files prepared before it stay in the temporary directory: %v", len(name), firstLine(err.Error()), short))
 		}
 	}
-	fmt.Printf("CONF-STATS evaluated=%d scope=real Hook.Run with a real process: 8 outcomes (ok, exit 3, malformed metrics / admission / conversion output, the hook removes its own context / metrics / conversion file) x 1 and 3 contexts: working directory, 6 environment variables -> existing files (outputs empty), binding context file content, outcome, temporary directory empty afterwards; one execution whose third preparation step fails (file name too long)\n", evaluated)
+	fmt.Printf("CONF-STATS evaluated=%d scope=real Hook.Run with a real process: 8 outcomes (ok, exit 3, malformed metrics / admission / conversion output, the hook removes its own context / metrics / conversion file) x 1 and 3 contexts, with the six contract variables already set in the operator's own environment: working directory, 6 environment variables -> the files of this execution (outputs empty), binding context file content, outcome, temporary directory empty afterwards; one execution whose third preparation step fails (file name too long)\n", evaluated)
 }
 
 func firstLine(s string) string {
